@@ -78,6 +78,24 @@ CLAIMS.update({
         note=TRUST + 'C12: best-fit map scans assumed via callee contracts backed by the real-map lemma; htp_normalize_parsed_uri, htp_normalize_hostname_inplace not under contract.'),
 })
 
+CLAIMS.update({
+    'C11': dict(
+        text=('The static htp_tx_process_request_headers is enforced against the property statement written as a decision table over the answers of its (replaced) callees: T-E/C-L presence, chunked token, '
+              'cl->flags, protocol, target host vs Host field; indicators only grow, none is raised without its trigger, IDENTITY framing comes with a non-negative length. Producers: '
+              'htp_process_request_header_generic (REPEATED on the stored header, repetition cap 64, C-L never merged, merge = old ", " new), htp_parse_header_hostport (invalid => HTP_HOSTH_INVALID), '
+              'htp_header_has_token (safety, unbounded) plus a BOUNDED equality with an independent token reference (case / whitespace clause). Three known findings (folded C-L never flagged; REPEATED C-L with '
+              'non-chunked T-E; unparseable C-L with chunked T-E) are carved out and re-confirmed on every run. The response twin (RES_BODY_DETERMINE) is not under contract.'),
+        design='4/C11', technique='CBMC code contracts (dfcc) with prophecy-ghost stubs for callees; bounded reference equality for the token search',
+        note=TRUST + 'C11: htp_validate_hostname and htp_parse_hostport not under contract (the hostport wrapper is proved over a stubbed validator); segmentation independence is C03.'),
+    'C15': dict(
+        text=('htp_urlenp_parse_partial is enforced (unbounded, do-while closed by invariants) against the tiling law over the log of piece-handler calls: pieces tile the input exactly on the separator '
+              'and the first "=", the state follows KEY-(=)->VALUE-(&)->KEY, only the last call carries -1; htp_urlenp_add_field_piece is enforced against the emission transition table (pair exactly for a '
+              'finished value, a key ended by the separator, a final non-empty key; final empty piece dropped; decode after split). Equality with the reference rule and chunking invariance over string '
+              'CONTENTS are decided by BOUNDED units on the real parser+builder+table (N = 2 quick), labelled bounded.'),
+        design='4/C15', technique='CBMC code contracts (dfcc) with a call-logging stub and witness indices; bounded reference equality with native replay',
+        note=TRUST + 'C15: decoder replaced by a stub in the contract units (decoding is C12); bounded N is tiny because the real builder/list heap code is expensive in CBMC.'),
+})
+
 NOT_YET = 'not yet built in this session (planned in DESIGN.md section 4); no check is registered, so nothing is claimed'
 NA = {
     'C08': 'amortised cost over a whole stream is not program state expressible at a function boundary; per-loop variants are proved and reported under C01 (DESIGN.md section 5)',
